@@ -34,11 +34,13 @@ class Sched:
         self.done = [False, False]
         self.sig = hashlib.sha1()
         self.switched_at = []
+        self.fault = None  # an exception inside the scheduler itself must never leak into the code under test
 
     def point(self, tid, frame):
         self.step += 1
         self.steps_by[tid] += 1
-        self.sig.update(("%d:%s:%d;" % (tid, frame.f_code.co_name, frame.f_lineno)).encode())
+        # f_lineno is None for opcodes that carry no line; f_lasti identifies the point exactly
+        self.sig.update(("%d:%s:%s:%s;" % (tid, frame.f_code.co_name, frame.f_lineno, frame.f_lasti if self.gran == "opcode" else "")).encode())
         if self.switches and self.step == self.switches[0]:
             self.switches.pop(0)
             other = 1 - tid
@@ -50,16 +52,23 @@ class Sched:
     def tracer(self, tid):
         gran, pkg, point = self.gran, self.pkg, self.point
 
+        def safe_point(frame):
+            try:
+                point(tid, frame)
+            except BaseException as e:  # noqa: BLE001
+                if self.fault is None:
+                    self.fault = e
+
         def local(frame, event, arg):
             if event == gran:
-                point(tid, frame)
+                safe_point(frame)
             return local
 
         def glob(frame, event, arg):
             if not frame.f_code.co_filename.startswith(pkg):
                 return None
             if gran == "call":
-                point(tid, frame)
+                safe_point(frame)
                 return None
             if gran == "opcode":
                 frame.f_trace_opcodes = True
@@ -91,6 +100,8 @@ class Sched:
             t.join(120)
             if t.is_alive():
                 raise core.HarnessFault("deadlock: a thread did not finish under schedule %r" % (self.switched_at,))
+        if self.fault is not None:
+            raise core.HarnessFault("exception inside the scheduler: %r" % (self.fault,))
         if self.switches:
             raise ReplayDivergence("switch points %r were never reached (steps=%d)" % (self.switches, self.step))
         return out, self.step, list(self.steps_by), self.sig.hexdigest()
